@@ -32,3 +32,22 @@ Theorem C19_controller_key_tells_releases_apart : forall ns1 n1 ns2 n2,
   RV.Model.Expect.controller_key ns1 n1 = RV.Model.Expect.controller_key ns2 n2 -> ns1 = ns2 /\ n1 = n2.
 Proof. exact RV.Proofs.Expect.controller_key_injective. Qed.
 Print Assumptions C19_controller_key_tells_releases_apart.
+
+(* generated object names: two Rollouts of one namespace with different stable Services never share a canary Service,
+   however long or similar the names are (the name is the stable name plus a fixed suffix, nothing is cut off) *)
+Theorem C19_canary_service_names_tell_rollouts_apart : forall a b,
+  RV.Model.Expect.canary_service_name a = RV.Model.Expect.canary_service_name b -> a = b.
+Proof. exact RV.Proofs.Expect.canary_service_name_injective. Qed.
+Print Assumptions C19_canary_service_names_tell_rollouts_apart.
+
+(* the registry of dynamically watched workload types: a type gets into it only through a watch that was registered
+   successfully, and a failed registration while reconciling one Rollout leaves it unchanged, so that the next Rollout of
+   that type registers the watch (and waits for the informer) instead of silently running without one *)
+Theorem C19_workload_type_registered_only_by_a_successful_watch : forall ops w0 x,
+  In x (RV.Proofs.Expect.watched_after w0 ops) -> In x w0 \/ In (x, true) ops.
+Proof. exact RV.Proofs.Expect.registered_only_by_a_successful_watch. Qed.
+Print Assumptions C19_workload_type_registered_only_by_a_successful_watch.
+Theorem C19_failed_watch_changes_nothing : forall w g, existsb (String.eqb g) w = false ->
+  RV.Model.Expect.watch_step w g false = (RV.Model.Expect.WError, w).
+Proof. exact RV.Proofs.Expect.failed_watch_changes_nothing. Qed.
+Print Assumptions C19_failed_watch_changes_nothing.
